@@ -590,6 +590,11 @@ func entryClosedAxioms(w *World, c *Comp) []string {
 		return nil
 	}
 	switch c.Kind {
+	case "mapval":
+		if c.KeySort == "" {
+			return nil
+		}
+		return []string{fmt.Sprintf("(assert (forall ((m Int) (k %s)) (! %s :pattern ((select (select %s m) k)))))", c.KeySort, f("(select (select "+n+" m) k)"), n)}
 	case "ghost":
 		// a ghost map describes existing objects only
 		if c.KeySort == "" {
